@@ -211,6 +211,44 @@ def end_to_end(run, n):
                 run.violation({"files": files, "uri": uri}, {"what": "write_nodeset validation end to end", "impl": res[:400], "output_exists": exists,
                                                                "expected": "ValidationError naming ['BadOne'], no file" if inject else "document written"})
                 return
+        # several namespaces: only the variables BEING WRITTEN count — a mismatch in another namespace of the graph
+        # (even one the written namespace refers to) does not make the write fail
+        for i in range(max(2, n // 4)):
+            for _ in range(30):
+                g, files = W.gen_closed(rng, hostile=False, n_ns=rng.choice([2, 3]))
+                vars_ = [k for k in g["order"] if g["nodes"][k]["cls"] == "UAVariable" and g["nodes"][k]["value"] is not None
+                         and g["nodes"][k]["value"]["t"] in ("Int32", "String", "Double", "Boolean")]
+                if vars_:
+                    break
+            if not vars_:
+                continue
+            k = rng.choice(vars_)
+            t = g["nodes"][k]["value"]["t"]
+            wrong = rng.choice([x for x in ("Int32", "String", "Double", "Boolean") if x != t])
+            g["nodes"][k]["attrs"]["DataType"] = D.BASE(D.VALUE_DT[wrong])
+            g["nodes"][k]["display"] = "BadOne"
+            files = D.serialise(rng, g, extras=False)
+            G, d = W.build_graph(sc, "m%d" % i, files)
+            for uri in g["uris"]:
+                own = uri == k[0]
+                run.case({"e2e_multi": i, "uri": uri, "holds_the_mismatch": own}, tag="e2e:multi:" + ("rejected" if own else "accepted"))
+                run.compared += 1
+                import io as _io
+                buf = _io.StringIO()
+                try:
+                    G.write_nodeset(buf, uri, last_modified=W.FIXED, publication_date=W.FIXED)
+                    res = "written"
+                except ValidationError as e:
+                    res = "ValidationError:" + str(e)
+                except Exception as e:  # noqa: BLE001
+                    res = type(e).__name__ + ":" + str(e)[:200]
+                ok = (own and res.startswith("ValidationError") and "['BadOne']" in res and buf.getvalue() == "") or (not own and res == "written")
+                if not ok and not own and res.startswith("IndexError"):
+                    continue        # a namespace that cannot be written at all (findings D-C06a,b) is not this property's business
+                if not ok:
+                    run.violation({"files": files, "uri": uri}, {"what": "write_nodeset validation with several namespaces", "impl": res[:400],
+                                                                   "expected": "ValidationError naming ['BadOne'], nothing written" if own else "document written (the mismatch is in %s)" % k[0]})
+                    return
 
 
 def explore(run):
